@@ -116,6 +116,10 @@ class Builder:
             # the probe's fixed workload panicked in this configuration (judged below against the base configuration)
             msg = re.search(r"panicked at ([^\n]*)\n([^\n]*)", rr.stderr)
             return {"status": "probe_panic", "detail": (msg.group(1) + ": " + msg.group(2)) if msg else rr.stderr[-300:], "cmd": replay, "secs": secs}
+        if rr.returncode < 0:
+            # killed by a signal (abort, segmentation fault): judged below like a panic, against the base
+            # configuration - a workload that runs to completion there and dies here was changed by the features
+            return {"status": "probe_panic", "detail": f"the probe was killed by signal {-rr.returncode}: {rr.stderr[-300:]}", "cmd": replay, "secs": secs}
         if rr.returncode != 0:
             return {"status": "run_error", "detail": f"probe exited with {rr.returncode}: {rr.stderr[-800:]}", "cmd": replay, "secs": secs}
         m = re.search(r"base_digest=([0-9a-f]+) base_values=(\d+)", rr.stdout)
